@@ -94,8 +94,10 @@ def run(prop, tier):
     C.log("[%s] design level done %.0fs" % (prop, time.time() - rep.t0))
     # 2. real runs
     ncpu = os.cpu_count() or 2
-    settings = [1, 2, 15] if tier == "quick" else list(range(1, 16))
-    settings = [w for w in settings if w + 1 <= ncpu] or [1]
+    # number of CPUs the creator may use (taskset): its worker count is max(cpus, 2) - 1, so 1 and 2 CPUs both give one
+    # worker (two different code paths of the floor), 3 gives 2, 16 gives 15
+    settings = [1, 2, 3, 16] if tier == "quick" else list(range(1, 17))
+    settings = [c for c in settings if c <= ncpu] or [1]
     seeds = 12 if tier == "quick" else 60
     base = os.path.join(C.WORK, "run_%s" % prop)
     shutil.rmtree(base, ignore_errors=True)
@@ -108,7 +110,7 @@ def run(prop, tier):
         for sd in range(seeds):
             k += 1
             ncl = rng.choice([5, 12, 12, 31] if tier == "quick" else [5, 12, 31, 80])
-            if w == 15 and sd == 0:
+            if w == 16 and sd == 0:
                 ncl = 40             # longer than 2*W = 30
             s = make_scn(rng, k, ncl, rng.choice(["zstd", "zstd", "lz4"] if tier == "quick" else ["zstd", "lz4", "lzma"]),
                          rng.choice([0, 200, 3000]))
@@ -116,14 +118,16 @@ def run(prop, tier):
             s["workers_setting"] = w
             scns.append(s)
         all_scns += scns
-        prefix = ["taskset", "-c", "0-%d" % w] if w + 1 < ncpu else None
+        prefix = ["taskset", "-c", "0-%d" % (w - 1) if w > 1 else "0"] if w < ncpu else None
         runs = C.run_scenarios(binary, [dict((a, b) for a, b in s.items()) for s in scns], "%s_w%d" % (prop, w),
-                               timeout=1200 if tier == "quick" else 7200, prefix=prefix)
+                               timeout=1200 if tier == "quick" else 7200, prefix=prefix, max_failures=3, env_extra={"VERIF_SCN_TIMEOUT": "120"})
         for s in scns:
             r = runs.get(s["id"], {"events": [], "status": "crash:notrun"})
+            if r["status"] == "skipped":
+                continue
             evs, problems, pk = P.annotate(s, r, want_verbatim=True)
             for sig, detail in problems:
-                rep.violation("%s workers=%d delay=%d %s" % (prop, w, s["delay_max_us"], sig), detail)
+                rep.violation("%s cpus=%d delay=%d %s" % (prop, w, s["delay_max_us"], sig), detail)
             if evs and pk is not None:
                 verb = {e["cluster"]: e["ok"] and e["algoOk"] for e in evs if e["ev"] == "Verbatim"}
                 content_events += [e for e in evs if e["ev"] != "Verbatim"]
@@ -139,7 +143,7 @@ def run(prop, tier):
                                                "file_order": [c["id"] for c in sorted(pk["clusters"], key=lambda c: c["dataPos"])][:40],
                                                "trace": pe[:8]})
             shutil.rmtree(s["dir"], ignore_errors=True)
-        C.log("[%s] workers=%d done %.0fs" % (prop, w, time.time() - rep.t0))
+        C.log("[%s] cpus=%d done %.0fs" % (prop, w, time.time() - rep.t0))
     # 3. code -> spec
     import p_entries as E
     E.validate_all(rep, prop, all_scns, pipe_events, "ClusterPipelineTrace", PIPE_CFG, sigf=lambda s: "workers=%s delay=%s clusters~%d" % (s.get("workers_setting"), s.get("delay_max_us"), len(s["ops"])))
@@ -148,7 +152,7 @@ def run(prop, tier):
     rep.cov["trace_events"] = len(pipe_events) + len(content_events)
     rep.cov["evaluations"] = len(all_scns)
     rep.cov["distinct_nontrivial"] = len(nontrivial)
-    rep.cov["rule"] = ("runs = worker counts %s (taskset) x %d seeds, 5..80 clusters mixing raw and compressed, seeded delays of 0/200/3000 us in every "
+    rep.cov["rule"] = ("runs = CPUs available to the creator %s (taskset; workers = max(cpus, 2) - 1) x %d seeds, 5..80 clusters mixing raw and compressed, seeded delays of 0/200/3000 us in every "
                        "Progress callback; distinct = different (worker count, order in which clusters were written); non-trivial = all (>= 5 clusters)" % (settings, seeds))
     rep.assumptions += ["schedules of the real code are sampled (seeded perturbation), the protocol is explored exhaustively in ClusterPipeline.tla",
                         "available_parallelism follows the CPU affinity mask (taskset)"]
